@@ -55,7 +55,7 @@ def mo_rec(mode, ci, bl, s='none', iv=b'', nonce=b'', count0=b''):
 def call(e, fn):
     e['raised'] = ''; e['obs'] = []
     try:
-        r = fn(); e['obs'] = B(r) if isinstance(r, (bytes, bytearray)) else [-1]
+        r = fn(); e['obs'] = B(r) if isinstance(r, bytes) else [-1]
     except Exception as ex: e['raised'] = type(ex).__name__
     return e
 
@@ -78,11 +78,22 @@ def longlived_events(mo, msgs, reconf=()):
     """ONE mode object for the whole sequence: enc(M), dec of that ciphertext, and for block-aligned unpadded data dec(M) then enc of it
     (the same block value travels in both directions).  CTR: the counter is re-configured through counter.setup() along the way."""
     import copy
-    ev = []; obj = make_mode(mo); bl = mo['sch']['B']; rc = list(reconf)
+    ev = []; obj = make_mode(mo); bl = mo['sch']['B']; rc = list(reconf); twin = None
+    if mo['mode'] == 'ctr':
+        try:
+            from crysp import mode as _m
+            twin = _m.CTR(make_cipher(mo['ci']), obj.counter)          # a second CTR object over the SAME counter object
+        except Exception: twin = None
     for j, M in enumerate(msgs):
         if mo['mode'] == 'ctr' and rc and j % 3 == 2:
             nonce, c0 = rc[(j // 3) % len(rc)]
             obj.counter.setup(nonce, c0); mo = copy.deepcopy(mo); mo['nonce'] = B(nonce); mo['count0'] = B(c0)
+        if mo['mode'] == 'ctr' and j % 4 == 1:
+            try: obj.counter.reset()                       # the counter moved from outside (or by a second CTR object sharing it): every enc/dec starts at count0 anyway
+            except Exception: pass
+            if twin is not None:
+                try: twin.enc(M + M)
+                except Exception: pass
         e = call(dict(op='enc', mo=mo, m=B(M), live=True), lambda: obj.enc(M)); ev.append(e)
         if e['raised'] or e['obs'] == [-1]: continue
         Cb = bytes(e['obs'])
